@@ -1995,4 +1995,36 @@ theorem C10_cancel_http (env : Env) (brk : Nat → Bool) (m : Method) (s0 : Http
   · show (HttpM.cancel s1).2 = []
     unfold HttpM.cancel; split <;> rfl
 
+namespace Examples
+
+/-! ### non-vacuity of the hypotheses -/
+
+def exDecl : Schema := [⟨['v'], ['i']⟩]
+def exMethod : Method := ⟨⟨exDecl, [⟨[], .emit ⟨1, 1, []⟩, []⟩, ⟨[], .finish, []⟩]⟩, some 7, [], none⟩
+def exInput : IBatch := ⟨[⟨['v'], ['i'], 0⟩]⟩
+def exEnv : Env := ⟨fun _ _ _ => none⟩
+
+example : ∃ s0, (PipeM.openS exMethod).2 = some s0 := ⟨_, rfl⟩
+example : ∃ s0, (HttpM.openS ⟨exEnv, fun _ => true, true⟩ exMethod).2 = some s0 := ⟨_, rfl⟩
+example : exMethod.prog.decl ≠ [] ∧ exMethod.init = none ∧ exMethod.header = some 7 := by decide
+example : ∀ b ∈ [exInput, exInput], b.schema = exDecl ∧ ∃ b', coerceInput exEnv exMethod.prog.decl b = .ok b' := by
+  intro b hb
+  simp only [List.mem_cons, List.not_mem_nil, or_false, or_self] at hb
+  subst hb
+  exact ⟨rfl, exInput, rfl⟩
+example : AllEmit (playedFrom exMethod.prog 0 2).dropLast ∧ ¬ AllEmit (playedFrom exMethod.prog 0 2) := by
+  constructor
+  · intro s hs
+    simp [playedFrom, exMethod, Prog.stepAt, List.range', List.dropLast] at hs
+    exact ⟨⟨1, 1, []⟩, by rw [hs]⟩
+  · intro h
+    obtain ⟨b, hb⟩ := h ⟨[], .finish, []⟩ (by simp [playedFrom, exMethod, Prog.stepAt, List.range'])
+    cases hb
+example : ¬ SameFieldSet (⟨[⟨['z'], ['i'], 0⟩]⟩ : IBatch).schema exDecl := by
+  intro h
+  have := (h ['z']).1 (by simp [names, IBatch.schema, Col.field])
+  simp [names, exDecl] at this
+
+end Examples
+
 end VgiVerif.C10
